@@ -401,6 +401,7 @@ BOUNDS = dict(ctr="block_len 8/16; counter_len 1..block_len; both endiannesses; 
 ASSUMPTIONS = ["cipher->encrypt uninterpreted (E, bijective per key)", "malloc succeeds",
                "chacha_seq compares the sequence under test with the real code's own output after a direct seek on a fresh object; that single block == RFC 8439 is decided in C02/chacha_block",
                "chacha_seek_py / ccm / gcm limits run the Python over the C contract models of vlib/pysym/natives.py (ctypes c_ulong truncation modelled)",
+               "gcm_limit injects the mid-life state through the private counter GcmMode._msg_len (the inductive step needs an arbitrary state; a rename of that field would need the harness to follow)",
                "mid-life states satisfy the representation invariant 'bytes so far <= limit' (established by start, preserved by a successful call)"]
 EXPLANATION = ("bounded model checking of the real C state machine of src/raw_ctr.c from LLVM IR (LLSYM): symbolic key, counter "
                "block and data; z3 decides that every keystream block is E of the counter block for its position and that the "
